@@ -79,7 +79,7 @@ def scenarios(tier, seed, ks=None):
         src = list(range(K))
         rep = lambda cnt, start=0: [K + start + i for i in range(cnt)]
         # a) single erasures, overhead 0/1/2
-        singles = src if K <= 11 else rnd.sample(src, 8 if not thorough else 20)
+        singles = src if K <= 11 else rnd.sample(src, min(len(src), 8 if not thorough else 20))
         for i in singles:
             for h in (0, 1, 2):
                 esis = [e for e in src if e != i] + rep(1 + h)
